@@ -1,7 +1,7 @@
 /-
   GM.Proof.QuoteSimList — one-line-step simulation of the list parsers (parser/list.go, parser/list_item.go):
   `listOpen_sim`, `listContinue_sim`, `listItemOpen_sim` (all three for ALL related states) and
-  `listItemContinue_sim'` (with two named hypotheses: a line is there, and `ListItemContPre`; without them the
+  `listItemContinue_sim'` (with two named hypotheses: a line is there, and `ListItemContPre` when the rest of the line is not blank; without them the
   statement is false: goldmark then calls `Advance(-1)` / `AdvanceAndSetPadding(-1, -1)` and the reader moves back).
   `listClose` is not covered (it reads `HasBlankPreviousLines`, which the relation does not relate).
 -/
@@ -779,10 +779,10 @@ theorem ListItemContPre.of_ge {src : Bytes} {ls p node : Nat} {sA : St}
 /-- `listItemContinue` is simulated when a line is there (`hline`; at the end of the source the peeked line is
     empty and goldmark calls `Advance(-1)`) and `ListItemContPre` holds. -/
 theorem listItemContinue_sim' (src : Bytes) : ∀ k ls p node sA sB, SR src k ls p sA sB → p < src.length →
-    ListItemContPre src ls p node sA →
+    (isBlank ((viewA src ls p).getD []) = false → ListItemContPre src ls p node sA) →
     S2 (fun a b sA' sB' => b = a ∧ ∃ p', p ≤ p' ∧ SR src k ls p' sA' sB')
       (bpContinue .listItem node sA) (bpContinue .listItem (node + 1) sB) := by
-  intro k ls p node sA sB h hline hpre
+  intro k ls p node sA sB h hline hpre0
   show S2 _ (listItemContinue node sA) (listItemContinue (node + 1) sB)
   unfold listItemContinue
   refine S2.bind ((peekLine_s2 h).withL_ls (fun _ s' => s'.nodes = sA.nodes ∧ s'.pc = sA.pc)
@@ -800,6 +800,7 @@ theorem listItemContinue_sim' (src : Bytes) : ∀ k ls p node sA sB, SR src k ls
     · exact ⟨hi.line, by have := hi.ge; omega, by omega, fun e => by omega⟩
     · exact S2.pure ⟨rfl, _, Nat.le_add_right _ _, h2⟩
   simp only [if_neg hc1]
+  have hpre := hpre0 (by simpa using hc1)
   refine S2.bind ((getNode_s2 h1 node).withL_ls (fun a s' => a = sA1.nodes.getD node default ∧ s' = sA1)
     (fun _ _ e => getNode_keeps_ls e)) (fun na nb sA2 sB2 hq => ?_)
   obtain ⟨⟨hab, h2⟩, hna, hk2⟩ := hq
